@@ -122,6 +122,18 @@ pub fn main(opts: &Opts) -> ! {
     }
     let acc = Mutex::new(Acc { counters: Counters::default(), failures: vec![], distinct: BTreeSet::new(), samples: vec![], calls: 0 });
     let deadline = Some(t0 + std::time::Duration::from_secs_f64(budget));
+    {
+        let (seed, names) = (opts.seed, names.clone());
+        set_watch(Watch {
+            property: "C10",
+            limit_s: 300,
+            describe: Box::new(move |i| {
+                let name = &names[(i % names.len() as u64) as usize];
+                format!("decode history {} of implementation {}", i / names.len() as u64, name)
+            }),
+        });
+        let _ = seed;
+    }
     let done = par_map(total, opts.threads, deadline, &stop, |i| {
         let name = &names[(i % names.len() as u64) as usize];
         let idx = i / names.len() as u64;
